@@ -3202,3 +3202,108 @@ pub mod verif_hooks_c17 {
         }
     }
 }
+
+#[cfg(feature = "verif-hooks")]
+pub mod verif_hooks_c13 {
+    //! Verification hooks (add-only) for the config (re)load property:
+    //! `Manager::spawn_internal` with recording closures (exactly what the
+    //! tests of this module do) and read access to the loader state.
+    use super::*;
+    use std::rc::Rc;
+
+    /// What `spawn_internal` asked for, by component name (and type name).
+    #[derive(Clone, Debug, PartialEq, Eq, PartialOrd, Ord)]
+    pub enum Action {
+        SpawnUnit(String, &'static str),
+        ReconfigureUnit(String, &'static str),
+        TerminateUnit(String),
+        SpawnTarget(String, &'static str),
+        ReconfigureTarget(String, &'static str),
+        TerminateTarget(String),
+    }
+
+    /// `Manager::spawn` with the six actions recorded instead of executed.
+    pub fn spawn_recording(
+        manager: &mut Manager,
+        config: &mut Config,
+    ) -> Vec<Action> {
+        let log: Rc<RefCell<Vec<Action>>> = Default::default();
+        let (l1, l2, l3, l4, l5, l6) = (
+            log.clone(),
+            log.clone(),
+            log.clone(),
+            log.clone(),
+            log.clone(),
+            log.clone(),
+        );
+        manager.spawn_internal(
+            config,
+            move |c: Component, u: Unit, _: Gate, _: WaitPoint| {
+                l1.borrow_mut()
+                    .push(Action::SpawnUnit(c.name.to_string(), u.type_name()))
+            },
+            move |c: Component,
+                  t: Target,
+                  _: Receiver<TargetCommand>,
+                  _: WaitPoint| {
+                l2.borrow_mut().push(Action::SpawnTarget(
+                    c.name.to_string(),
+                    t.type_name(),
+                ))
+            },
+            move |name: &str, _: GateAgent, u: Unit, _: Gate| {
+                l3.borrow_mut().push(Action::ReconfigureUnit(
+                    name.to_string(),
+                    u.type_name(),
+                ))
+            },
+            move |name: &str, _: Sender<TargetCommand>, t: Target| {
+                l4.borrow_mut().push(Action::ReconfigureTarget(
+                    name.to_string(),
+                    t.type_name(),
+                ))
+            },
+            move |name: &str, _: Arc<GateAgent>| {
+                l5.borrow_mut().push(Action::TerminateUnit(name.to_string()))
+            },
+            move |name: &str, _: Arc<Sender<TargetCommand>>| {
+                l6.borrow_mut()
+                    .push(Action::TerminateTarget(name.to_string()))
+            },
+        );
+        let out = log.borrow().clone();
+        out
+    }
+
+    /// Names for which the thread-local loader currently holds a gate.
+    pub fn loader_gate_names() -> Vec<String> {
+        GATES.with(|gates| {
+            gates
+                .borrow()
+                .as_ref()
+                .map(|g| g.keys().cloned().collect())
+                .unwrap_or_default()
+        })
+    }
+
+    /// Names in `Manager::pending_gates`.
+    pub fn pending_gate_names(manager: &Manager) -> Vec<String> {
+        manager.pending_gates.keys().cloned().collect()
+    }
+
+    /// Names of the running units and of the running targets.
+    pub fn running_names(manager: &Manager) -> (Vec<String>, Vec<String>) {
+        (
+            manager.running_units.keys().cloned().collect(),
+            manager.running_targets.keys().cloned().collect(),
+        )
+    }
+
+    /// A fresh process: what `init_manager` of the tests does.
+    pub fn reset_loader() {
+        GATES.with(|gates| gates.replace(Some(Default::default())));
+        ROTO_FILTER_NAMES.with(|filter_names| {
+            filter_names.replace(Some(Default::default()))
+        });
+    }
+}
